@@ -6,11 +6,43 @@
    Polymorphic in the arithmetic (MatOps).  The exogenous model is an arbitrary
    function of the whole n x k matrix of means (ExogenousProcess::propagate is
    called once, on all columns).  Output objects are in-out: every function
-   takes the previous content of the object it writes into. *)
+   takes the previous content of the object it writes into.
+
+   Layout.  A GaussianMixture carries descriptors (components, dim_linear,
+   dim_circular, use_quaternion, dim_noise; dim and dim_covariance follow from
+   them, C11).  Neither predict nor predictStep sizes the output object:
+     - a skipped prediction (GaussianPrediction::skip_ or the state model's flag)
+       copy-assigns the input belief, descriptors included, whatever the output
+       object was;
+     - otherwise the mean is written through a fixed-size view of the output's
+       storage (Ref<MatrixXd>) and covariance(i), i < prev.components, through
+       fixed-size blocks: the descriptors of the output object are NOT written.
+       The step is therefore only defined on an output object with the
+       components / dim / dim_covariance of the input (gl_same_shape); its
+       linear/circular split, quaternion flag, noise size, weights and content
+       are arbitrary, and the first three stay what they were. *)
 Require Import ZArith List Bool.
 Require Import BFL.Ops.
 Import ListNotations.
 Local Open Scope bool_scope.
+
+(* descriptors of a GaussianMixture (GaussianMixture.h: components, dim_linear,
+   dim_circular, use_quaternion, dim_noise) *)
+Record glayout := mkGlayout {
+  gl_components : nat;
+  gl_dim_linear : nat;
+  gl_dim_circular : nat;
+  gl_quat : bool;
+  gl_dim_noise : nat
+}.
+(* dim and dim_covariance as the constructor / resize / augmentWithNoise keep them *)
+Definition gl_dim (l : glayout) : nat :=
+  gl_dim_linear l + gl_dim_circular l * (if gl_quat l then 4 else 1) + gl_dim_noise l.
+Definition gl_dim_cov (l : glayout) : nat :=
+  gl_dim_linear l + gl_dim_circular l * (if gl_quat l then 3 else 1) + gl_dim_noise l.
+(* what the fixed-size views of a non-skipped step need *)
+Definition gl_same_shape (a b : glayout) : bool :=
+  Nat.eqb (gl_components a) (gl_components b) && Nat.eqb (gl_dim a) (gl_dim b) && Nat.eqb (gl_dim_cov a) (gl_dim_cov b).
 
 Section KFP.
 Variable O : MatOps.
@@ -18,13 +50,23 @@ Notation S := (sc O).
 
 (* a Gaussian mixture with k components of dimension n at algorithm level:
    GaussianMixture::mean() is the n x k matrix of means; covariance(i) and
-   weight(i) are the entries of two lists (C11 ties this view to the storage) *)
+   weight(i) are the entries of two lists (C11 ties this view to the storage);
+   gm_layout are the descriptors the object reports *)
 Record gmix (n k : nat) := mkGmix {
   gm_means : M O n k;
   gm_covs : list (M O n n);
-  gm_weights : list (T S)
+  gm_weights : list (T S);
+  gm_layout : glayout
 }.
 Arguments mkGmix {n k}. Arguments gm_means {n k}. Arguments gm_covs {n k}. Arguments gm_weights {n k}.
+Arguments gm_layout {n k}.
+
+(* the object is as C11 leaves it: one covariance and one weight per reported
+   component, means and covariances of the reported sizes *)
+Definition gm_shaped {n k} (g : gmix n k) : Prop :=
+  length (gm_covs g) = gl_components (gm_layout g) /\
+  length (gm_weights g) = gl_components (gm_layout g) /\
+  gl_components (gm_layout g) = k /\ gl_dim (gm_layout g) = n /\ gl_dim_cov (gm_layout g) = n.
 
 (* LinearStateModel::propagate.  [exo] = None: no exogenous model attached
    (have_exogenous_model() = false); Some u: attached, u its propagate.
@@ -54,10 +96,11 @@ Definition overwrite_prefix {A} (new old : list A) : list A := new ++ skipn (len
 (* KFPrediction::predictStep *)
 Definition kf_predict_step {n k} (F Q : M O n n) (exo : option (M O n k -> M O n k))
            (skip_state skip_exo : bool) (prev pred_old : gmix n k) : gmix n k :=
-  if skip_state then prev                      (* pred_state = prev_state *)
+  if skip_state then prev                      (* pred_state = prev_state: the whole object, descriptors included *)
   else mkGmix (lin_propagate F exo skip_state skip_exo (gm_means prev) (gm_means pred_old))
               (overwrite_prefix (map (kf_predict_cov F Q) (gm_covs prev)) (gm_covs pred_old))
-              (gm_weights pred_old).           (* weights are not written *)
+              (gm_weights pred_old)            (* weights are not written *)
+              (gm_layout pred_old).            (* descriptors are not written: no resize *)
 
 (* GaussianPrediction::predict; skip_pred is GaussianPrediction::skip_ *)
 Definition gaussian_predict {n k} (F Q : M O n n) (exo : option (M O n k -> M O n k))
@@ -76,12 +119,57 @@ Definition gm_mean_i {n k} (g : gmix n k) (i : nat) : M O n 1 := mcol i (gm_mean
 (* the exogenous model of the correspondence harness: u(X) = B X + c 1^T *)
 Definition affine_exo {n k} (B : M O n n) (c : M O n 1) (X : M O n k) : M O n k :=
   madd (mmul B X) (mmul c (mconst O 1 k (s1 S))).
+(* ... attached or not *)
+Definition affine_exo_opt {n k} (e : option (M O n n * M O n 1)) : option (M O n k -> M O n k) :=
+  match e with
+  | Some (B, c) => Some (affine_exo B c)
+  | None => None
+  end.
 
 (* spec-level prediction of one component, computed column by column *)
 Definition spec_mean {n} (F : M O n n) (u : M O n 1) (x : M O n 1) : M O n 1 := madd (mmul F x) u.
+
+(* spec of the whole step, component by component: (F m_i + u_i, F P_i F^T + Q),
+   u_i = B m_i + c for the affine exogenous model, 0 without one *)
+Definition kf_spec {n k} (F Q : M O n n) (e : option (M O n n * M O n 1))
+           (means : M O n k) (covs : list (M O n n)) : list (M O n 1 * M O n n) :=
+  map (fun ip : nat * M O n n =>
+         let x := mcol (fst ip) means in
+         let u := match e with
+                  | Some (B, c) => madd (mmul B x) c
+                  | None => mzero n 1
+                  end in
+         (spec_mean F u x, kf_predict_cov F Q (snd ip)))
+      (combine (seq 0 (length covs)) covs).
+
+(* ONE prediction object driven through several calls.  Between the calls the
+   owner may change everything the object reads: the matrices of the (time
+   varying) state model, its exogenous model, the three skip flags, even the
+   model itself (move assignment from another prediction) and with it the
+   state dimension; the beliefs and output objects are those of the call.  The
+   object keeps nothing from one call to the next (KFPrediction has no member
+   besides the model): the answer to call s is the step on the inputs of call s. *)
+Record kf_call := mkCall {
+  kc_n : nat; kc_k : nat;
+  kc_F : M O kc_n kc_n; kc_Q : M O kc_n kc_n;
+  kc_exo : option (M O kc_n kc_k -> M O kc_n kc_k);
+  kc_sp : bool; kc_ss : bool; kc_se : bool;
+  kc_prev : gmix kc_n kc_k; kc_old : gmix kc_n kc_k
+}.
+Record kf_ret := mkRet { kr_n : nat; kr_k : nat; kr_mix : gmix kr_n kr_k }.
+Definition kf_call_run (c : kf_call) : kf_ret :=
+  mkRet (kc_n c) (kc_k c)
+        (gaussian_predict (kc_F c) (kc_Q c) (kc_exo c) (kc_sp c) (kc_ss c) (kc_se c) (kc_prev c) (kc_old c)).
+Definition kf_predict_seq (calls : list kf_call) : list kf_ret := map kf_call_run calls.
 End KFP.
 
 Arguments mkGmix {_ n k}. Arguments gm_means {_ n k}. Arguments gm_covs {_ n k}. Arguments gm_weights {_ n k}.
+Arguments gm_layout {_ n k}. Arguments gm_shaped {_ n k}.
 Arguments lin_propagate {_ n k}. Arguments kf_predict_cov {_ n}. Arguments overwrite_prefix {A}.
 Arguments kf_predict_step {_ n k}. Arguments gaussian_predict {_ n k}. Arguments kf_predict {_ n k}.
-Arguments gm_mean_i {_ n k}. Arguments affine_exo {_ n k}. Arguments spec_mean {_ n}.
+Arguments gm_mean_i {_ n k}. Arguments affine_exo {_ n k}. Arguments affine_exo_opt {_ n k}. Arguments spec_mean {_ n}.
+Arguments kf_spec {_ n k}.
+Arguments mkCall {_}. Arguments kc_n {_}. Arguments kc_k {_}. Arguments kc_F {_}. Arguments kc_Q {_}. Arguments kc_exo {_}.
+Arguments kc_sp {_}. Arguments kc_ss {_}. Arguments kc_se {_}. Arguments kc_prev {_}. Arguments kc_old {_}.
+Arguments mkRet {_}. Arguments kr_n {_}. Arguments kr_k {_}. Arguments kr_mix {_}.
+Arguments kf_call_run {_}. Arguments kf_predict_seq {_}.
